@@ -46,6 +46,9 @@ func goid() int64 {
 
 func init() {
 	verifhook.Yield = func(point string) {
+		if strings.HasPrefix(point, "fine:") {
+			return // FINE points are for mode=lnconc pts=fine only
+		}
 		if w, ok := workers.Load(goid()); ok {
 			cw := w.(*cworker)
 			if cw.suppress > 0 {
